@@ -10,17 +10,17 @@ from ..stateful import Mismatch, build_machine, run_history
 
 PROPERTY = 'C04'
 RULE = ("Histories (Hypothesis rule-based state machine, replayable as JSON) over a pool of objects with a recording Callback: new / write (call, set_val, equal, indexed and sliced assignment; scalar and array; "
-        "values constructed on the quarter-LSB grid at the range ends) / write from another Fxp / set rounding+overflow / reset / resize / arithmetic (+,-,*,/,//,%) / dispatched one-variable functions / Fxp(x). "
+        "values constructed on the quarter-LSB grid at the range ends) / write from another Fxp / set rounding+overflow / reset / resize / arithmetic (+,-,*,/,//,%) / unary -,+,abs / dispatched one-variable functions / Fxp(x) / a.like(t). "
         "Model: three sticky booleans per object (overflow |= any ROUND(x)>hi, underflow |= any ROUND(x)<lo, inaccuracy |= any stored!=input, plus the source's inaccuracy for Fxp sources), cleared by reset() which must "
         "leave status['extended_prec'] readable; after EVERY step every live object's flags and codes must equal the model; each explicit write must invoke exactly the callbacks of the conditions that occurred plus one "
         "on_value_change; results of arithmetic / functions / Fxp(x) must carry inaccuracy when an operand did. Exhaustive part: every boundary input (hi, lo +- {0,1/4,1/2,3/4,1}) of every format with n_word<=6, all n_frac, "
         "10 modes, 3 routes. Non-trivial history = a flag-raising write, later a clean write, and a reset; distinct = distinct operation sequences.")
 ASSUMPTIONS = ['n_word<=52; inputs exact doubles', 'callback counts are asserted for explicit writes on an existing object only (the constructor performs two internal writes)',
-               'propagation through unary -, abs, shifts, like() and equal() is not asserted (statement names arithmetic; anchors name function wrappers and Fxp-from-Fxp)']
+               'propagation through shifts, equal() and numpy functions fxpmath does not implement itself (np.negative, np.abs, np.sin ... fall through to numpy on float values) is not asserted (statement names arithmetic; anchors name function wrappers and Fxp-from-Fxp)']
 EXHAUSTIVE = False    # the whole quantifier is not enumerated; complete sub-domains are listed in EXHAUSTIVE_SUBDOMAINS
 EXHAUSTIVE_SUBDOMAINS = {'quick': ['boundary writes: n_word<=6 x n_frac -8..n_word+8 x 10 modes x 18 boundary inputs x 3 routes'], 'thorough': ['same']}
 REQUIRED_CLASSES = {'history:raise-clean-reset': 50, 'write:overflow': 300, 'write:underflow': 300, 'write:inexact': 300, 'op:reset': 200, 'op:resize': 200,
-                    'op:arith': 200, 'op:write_fxp': 200, 'boundary': 10000}
+                    'op:arith': 200, 'op:write_fxp': 200, 'op:unary': 100, 'op:like_method': 100, 'boundary': 10000}
 CB_NAMES = ('on_status_overflow', 'on_status_underflow', 'on_status_inaccuracy', 'on_value_change')
 
 
@@ -320,6 +320,48 @@ class World:
             raise Mismatch('func/%s/inaccuracy-not-propagated' % name, {'a': a.flags, 'z': list(C.flags(z))})
         self.adopt(z)
 
+    def op_unary(self, op):
+        """-x, +x, abs(x): arithmetic with one operand; the result carries the operand's inaccuracy."""
+        a = self.pick(op['i'])
+        if a is None:
+            return
+        x = a.x
+        z = {'neg': lambda: -x, 'pos': lambda: +x, 'abs': lambda: abs(x)}[op['name']]()
+        if a.flags[2] and not C.flags(z)[2]:
+            raise Mismatch('unary/%s/inaccuracy-not-propagated' % op['name'], {'a': a.flags, 'z': list(C.flags(z))})
+        lo, hi = M.rng(*a.fmt[:2])
+        want = [{'neg': -k, 'pos': k, 'abs': abs(k)}[op['name']] for k in a.codes]
+        if all(lo <= k <= hi for k in want):
+            # nothing exceeded the format: the result is exact and raises nothing of its own
+            if C.flat(C.codes(z)) != want or C.fmt_of(z) != (bool(a.fmt[0]), a.fmt[1], a.fmt[2]):
+                raise Mismatch('unary/%s/value' % op['name'], {'expected': want, 'got': C.flat(C.codes(z)), 'fmt': C.fmt_of(z)})
+            if list(C.flags(z)) != [False, False, bool(a.flags[2])]:
+                raise Mismatch('unary/%s/flags' % op['name'], {'a': a.flags, 'z': list(C.flags(z))})
+        self.adopt(z)
+
+    def op_like_method(self, op):
+        """a.like(t): a new object in t's format holding a's value; its status is its own (not t's), plus a's inaccuracy."""
+        a, t = self.pick(op['i']), self.pick(op['j'])
+        if a is None or t is None:
+            return
+        sh = t.fmt[2] - a.fmt[2]
+        if abs(sh) > 40:
+            return
+        z = a.x.like(t.x)
+        if C.fmt_of(z) != (bool(t.fmt[0]), t.fmt[1], t.fmt[2]):
+            raise Mismatch('like_method/format', {'expected': t.fmt, 'got': C.fmt_of(z)})
+        if a.flags[2] and not C.flags(z)[2]:
+            raise Mismatch('like_method/inaccuracy-not-propagated', {'a': a.flags, 'z': list(C.flags(z))})
+        lo, hi = M.rng(*t.fmt[:2])
+        if sh >= 0 and all(lo <= (k << sh) <= hi for k in a.codes):
+            # the value fits the template's format exactly: same value, no flag of its own
+            if C.flat(C.codes(z)) != [k << sh for k in a.codes]:
+                raise Mismatch('like_method/value', {'expected': [k << sh for k in a.codes], 'got': C.flat(C.codes(z))})
+            if list(C.flags(z)) != [False, False, bool(a.flags[2])]:
+                which = [n for n, g, e in zip(('overflow', 'underflow', 'inaccuracy'), C.flags(z), [False, False, bool(a.flags[2])]) if bool(g) != bool(e)]
+                raise Mismatch('like_method/flags/%s' % '+'.join(which), {'template_flags': t.flags, 'a': a.flags, 'z': list(C.flags(z))})
+        self.adopt(z, modes=t.modes)
+
     def op_derive_like(self, op):
         """A new object built from plain values with like= / template= of an existing (possibly flagged) object:
         its flags are those of its own first write only."""
@@ -509,6 +551,8 @@ def op_strategies():
         'func': st.fixed_dictionaries({'i': st.integers(0, 7), 'name': st.sampled_from(['sum', 'cumsum', 'max', 'min']), 'numpy': st.booleans(),
                                        'out': st.booleans()}),
         'derive': st.fixed_dictionaries({'i': st.integers(0, 7), 'like': st.booleans()}),
+        'unary': st.fixed_dictionaries({'i': st.integers(0, 7), 'name': st.sampled_from(['neg', 'pos', 'abs'])}),
+        'like_method': st.fixed_dictionaries({'i': st.integers(0, 7), 'j': st.integers(0, 7)}),
         'derive_like': st.fixed_dictionaries({'i': st.integers(0, 7), 'how': st.sampled_from(['like', 'template']), 'scalar': st.booleans(),
                                               'rel': st.lists(st.tuples(st.sampled_from(['hi', 'lo', 'zero', 'mid', 'mid', 'far+', 'far-']), st.integers(-6, 6)).map(list),
                                                               min_size=1, max_size=3)}),
